@@ -209,6 +209,77 @@ def tap(log, deep=True):
     return _tap
 
 
+def ttap(log, tag, deep=True):
+    """like tap, but several taps share one log (real-time order across boundaries):
+    events are (tag, kind, key, payload)"""
+    cp = copy.deepcopy if deep else (lambda x: x)
+
+    def _tap(source):
+        def on_subscribe(observer, scheduler):
+            def on_next(i):
+                t = type(i)
+                if t is rs.OnNextMux:
+                    log.append((tag, 'N', i.key, cp(i.item)))
+                elif t is rs.OnCreateMux:
+                    log.append((tag, 'C', i.key, None))
+                elif t is rs.OnCompletedMux:
+                    log.append((tag, 'D', i.key, None))
+                elif t is rs.OnErrorMux:
+                    log.append((tag, 'E', i.key, i.error))
+                observer.on_next(i)
+
+            def on_error(e):
+                log.append((tag, 'error', None, e))
+                observer.on_error(e)
+
+            def on_completed():
+                log.append((tag, 'done', None, None))
+                observer.on_completed()
+
+            return source.subscribe(on_next=on_next, on_error=on_error, on_completed=on_completed,
+                                    scheduler=scheduler)
+        return rs.MuxObservable(on_subscribe)
+    return _tap
+
+
+def tagged_lifetimes(log, tag):
+    """lifetimes at one tagged boundary of a shared log; positions are indices in the shared log"""
+    live = {}
+    out = []
+    odd = []
+    for n, e in enumerate(log):
+        if e[0] != tag:
+            continue
+        k, key = e[1], e[2]
+        if k == 'C':
+            if key in live:
+                odd.append(('create-live', key, n))
+            lt = Lifetime(key, n)
+            live[key] = lt
+            out.append(lt)
+        elif k == 'N':
+            lt = live.get(key)
+            if lt is None:
+                odd.append(('item-dead', key, n))
+            else:
+                lt.items.append(e[3])
+                lt.item_at.append(n)
+        elif k == 'E':
+            lt = live.get(key)
+            if lt is None:
+                odd.append(('error-dead', key, n))
+            else:
+                lt.errors.append(e[3])
+        elif k == 'D':
+            lt = live.pop(key, None)
+            if lt is None:
+                odd.append(('completed-dead', key, n))
+            else:
+                lt.closed = True
+                lt.closed_at = n
+    return out, odd
+
+
 class Lifetime:
     __slots__ = ('key', 'items', 'errors', 'closed', 'created_at', 'closed_at', 'item_at')
 
